@@ -21,7 +21,8 @@ Inductive exc :=
 | ENotFound                               (* OperationNotFound *)
 | ELookup                                 (* LookupError raised by MethodMap.__getitem__ *)
 | EOther                                  (* an exception class the model does not pin down *)
-| ETruncated                              (* not Python: RECURSION_DEPTH_LIMIT reached, remove_optional_references is not modelled *)
+| ETruncated                              (* not Python: RECURSION_DEPTH_LIMIT reached (remove_optional_references is not modelled),
+                                             or a percent-encoded non-ASCII byte in a reference (UTF-8 decoding is not modelled) *)
 | EFuel.                                  (* not Python: fuel exhausted *)
 
 Definition exc_eqb (a b : exc) : bool :=
@@ -149,14 +150,52 @@ Definition py_iter (j : json) : res (list json) :=
 
 (* ------------------------------------------------------------------ local references
    jsonschema.RefResolver.resolve / resolve_fragment for references into the document itself
-   (base URI empty).  unquote is the identity on the modelled fragment (no percent sign);
-   anchors and ids are not searched. *)
+   (base URI empty): fragment.lstrip(/), unquote, split on /, RFC 6901 token decoding (~1 first, then ~0).
+   Anchors and ids are not searched. *)
 Fixpoint repl2 (a b by_ : N) (s : str) : str :=
   match s with
   | x :: ((y :: r) as t) => if N.eqb x a && N.eqb y b then by_ :: repl2 a b by_ r else x :: repl2 a b by_ t
   | _ => s
   end.
 Definition unescape (s : str) : str := repl2 126 48 126 (repl2 126 49 47 s).
+
+(* urllib.parse.unquote, applied by RefResolver.resolve_fragment to the fragment BEFORE it is split into
+   reference tokens: a percent sign followed by two hexadecimal digits is one byte, any other percent sign
+   stays.  Exact when every decoded byte is ASCII; a decoded byte above 127 is UTF-8 decoded by Python
+   together with its neighbours (errors=replace): not modelled, [pct_high] marks such fragments. *)
+Definition hex_val (c : N) : option N :=
+  if is_digit c then Some (c - 48)%N
+  else if ((65 <=? c) && (c <=? 70))%N then Some (c - 55)%N
+  else if ((97 <=? c) && (c <=? 102))%N then Some (c - 87)%N
+  else None.
+Fixpoint unquote (s : str) : str :=
+  match s with
+  | [] => []
+  | c :: t =>
+      if N.eqb c 37 then
+        match t with
+        | h :: l :: r => match hex_val h, hex_val l with
+                         | Some a, Some b => (16 * a + b)%N :: unquote r
+                         | _, _ => c :: unquote t
+                         end
+        | _ => c :: unquote t
+        end
+      else c :: unquote t
+  end.
+Fixpoint pct_high (s : str) : bool :=
+  match s with
+  | [] => false
+  | c :: t =>
+      if N.eqb c 37 then
+        match t with
+        | h :: l :: r => match hex_val h, hex_val l with
+                         | Some a, Some b => (128 <=? 16 * a + b)%N || pct_high r
+                         | _, _ => pct_high t
+                         end
+        | _ => pct_high t
+        end
+      else pct_high t
+  end.
 Definition rstrip_slash (s : str) : str := rev (strip_left [47%N] (rev s)).
 
 Definition parse_index (s : str) : option nat :=
@@ -191,7 +230,8 @@ Definition resolve (doc : json) (ref : str) : res (str * json) :=
   | 35%N :: frag =>
       let frag := strip_left [47%N] frag in
       if is_nil frag then Val (url, doc)
-      else match pointer_walk doc (map unescape (split_on 47 frag)) with
+      else if pct_high frag then Raise ETruncated   (* percent-encoded non-ASCII byte: outside the model *)
+      else match pointer_walk doc (map unescape (split_on 47 (unquote frag))) with
            | Some v => Val (url, v)
            | None => Raise ERef
            end
@@ -1205,3 +1245,62 @@ Definition observed_op (raw : json) (pp hh cc qq : list json) : operation :=
 Definition observed_keys_present (v : version) (doc raw : json) (pp hh cc qq : list json) : res bool :=
   do active <- active_definitions v doc raw;
   Val (security_keys_present active (observed_op raw pp hh cc qq)).
+
+(* ------------------------------------------------------------------ JSON-pointer escaping of path keys
+   (added after the seeded regression C08_d: the token decoding of get_operation_by_reference and of the link
+   statistic applied the two RFC 6901 substitutions in the other order) *)
+(* schemas.py (base) :783 APIOperation.operation_reference: path.replace(~, ~0).replace(/, ~1) *)
+Definition escape_pointer (s : str) : str := replace_char 47 [126; 49]%N (replace_char 126 [126; 48]%N s).
+Definition reference_of (path method : str) : str := S "#/paths/" ++ escape_pointer path ++ 47%N :: method.
+
+(* schemas.py:526-527 (and :224-225 in the link statistic): the (path, method) derived from the URL a reference
+   resolves at: scope.rsplit(/, maxsplit=2)[-2:], then the token decoding [dec] of the path *)
+Definition path_of_url (dec : str -> str) (url : str) : option (str * str) :=
+  match last_two (split_on 47 url) with Some (p, m) => Some (dec p, m) | None => None end.
+Definition path_of_reference (r : str) : option (str * str) := path_of_url unescape (rstrip_slash r).
+
+(* sentinel, NOT the code: the same two substitutions in the other order (~0 first) *)
+Definition unescape_wrong (s : str) : str := repl2 126 49 47 (repl2 126 48 126 s).
+
+(* is_link_selected of _measure_statistic (schemas.py:218-230) for a link with operationRef: the (method, path)
+   looked up among the selected operations; any exception gives None (the link is not counted) *)
+Definition operation_ref_target (doc : json) (operation_ref : json) : option (str * str) :=
+  match resolve_value doc operation_ref with
+  | Val (url, _) => match path_of_url unescape url with Some (p, m) => Some (m, p) | None => None end
+  | Raise _ => None
+  end.
+
+(* region of the reference theorems: the document has an inline path item (no $ref) under the key p, p is not
+   empty and has no percent sign, m is one of the eight method keys, present as written, and the case-insensitive
+   view MethodMap uses agrees with the plain keys for m and for parameters *)
+Definition opt_json_eqb (a b : option json) : bool :=
+  match a, b with Some x, Some y => json_eqb x y | None, None => true | _, _ => false end.
+Definition entry_of (doc : json) (p : str) : option (list (str * json)) :=
+  match doc with
+  | JObj top => match assoc_get k_paths top with
+                | Some (JObj paths) => match assoc_get p paths with Some (JObj kvs) => Some kvs | _ => None end
+                | _ => None
+                end
+  | _ => None
+  end.
+Definition plain_entry (doc : json) (p m : str) : bool :=
+  match entry_of doc p with
+  | Some kvs =>
+      negb (is_nil p) && negb (mem 37 p) && is_http_method m && negb (assoc_mem k_ref kvs)
+      && assoc_mem m kvs
+      && opt_json_eqb (ci_get m kvs) (assoc_get m kvs)
+      && opt_json_eqb (ci_get k_parameters kvs) (assoc_get k_parameters kvs)
+  | None => false
+  end.
+
+(* an access that is a lookup of a plain entry by path and method or by the reference operation_reference gives *)
+Definition plain_access (doc : json) (a : access) : bool :=
+  match a with
+  | AGet p m => plain_entry doc p m
+  | AByRef r =>
+      match path_of_reference r with
+      | Some (p, m) => plain_entry doc p m && str_eqb r (reference_of p m)
+      | None => false
+      end
+  | _ => false
+  end.
